@@ -1033,7 +1033,9 @@ func checkAuthorPackage(t *rapid.T, l *layout, w *world, m *shardModel, f *shard
 	author := m.cands[a]
 	pubKeys, err := w.vc.PrivateEncryptionKeyCandidates(author.Addr)
 	if err != nil {
-		fail("author has no recipient list: %v", err)
+		// an author nobody has to solve (checkShard has verified that none of its flips is assigned)
+		evid.Count("crypto.author-without-recipients")
+		return
 	}
 	flipPub := ecies.ImportECDSA(deriveKey("flip-public", author.Addr.Hex()))
 	flipPriv := ecies.ImportECDSA(deriveKey("flip-private", author.Addr.Hex()))
